@@ -589,7 +589,46 @@ def do_headtheory(req):
     return {'status': 'ok', 'calls': calls}
 
 
-HANDLERS = {'headtheory': do_headtheory, 'intervalset': do_intervalset, 'theory': do_theory, 'history': do_history, 'solve': do_solve, 'transform': do_transform, 'loop': do_loop, 'pyparse': do_pyparse, 'gparse': do_gparse}
+class _Pos:
+    def __init__(self, f, l, c):
+        self.filename, self.line, self.column = f, l, c
+
+
+class _Loc:
+    def __init__(self, b, e):
+        self.begin, self.end = _Pos(*b), _Pos(*e)
+
+
+def do_strloc(req):
+    """str_location of /repo on the given (begin, end) positions"""
+    from telingo.transformers import transformer as _tr
+    return {'status': 'ok', 'out': [_tr.str_location(_Loc(b, e)) for b, e in req['locs']]}
+
+
+def do_locations(req):
+    """the locations of all nodes of the clingo AST of a text (begin file/line/column, end file/line/column), by the parser of clingo alone"""
+    from clingo import ast as _a
+    seen = set()
+
+    def walk(n):
+        if isinstance(n, _a.AST):
+            if 'location' in n.keys():
+                l = n.location
+                seen.add((l.begin.filename, l.begin.line, l.begin.column, l.end.filename, l.end.line, l.end.column))
+            for k in n.keys():
+                if k != 'location':
+                    walk(getattr(n, k))
+        elif isinstance(n, (list, tuple)) or type(n).__name__ in ('ASTSequence', 'StrSequence'):
+            for x in n:
+                walk(x)
+    try:
+        _a.parse_string(req['text'], walk)
+    except Exception as e:  # noqa
+        return exc_info(e)
+    return {'status': 'ok', 'locs': sorted(seen)}
+
+
+HANDLERS = {'strloc': do_strloc, 'locations': do_locations, 'headtheory': do_headtheory, 'intervalset': do_intervalset, 'theory': do_theory, 'history': do_history, 'solve': do_solve, 'transform': do_transform, 'loop': do_loop, 'pyparse': do_pyparse, 'gparse': do_gparse}
 
 
 def main():
